@@ -1,6 +1,144 @@
+"""C16: hardening codemods make only their documented edit.
+
+Deductive part (contracts/args.py): the framework helpers every hardening codemod edits a call through - replace_args, _match_with_existing_arg,
+add_arg_to_call, update_call_target, update_arg_target, ImportedCallModifier.leave_Call, https-connection's positional-argument count.
+
+BOUNDED stand-in (never counted as proved): each codemod's own `on_result_found` is libcst tree surgery the engine cannot execute.  For the
+hardening codemods that run offline (no semgrep rule) the real CLI is run on generated call shapes - the target call with a nested call that
+carries the same keywords as the fix (`shell=True`, `verify=False`, ...) inside its first argument, star-args and a `**spread`, inside a
+dict literal with a `**spread` - and the output is compared with the input on what the codemod must NOT touch: every nested call, every
+star/double-star argument, every dict spread, and the order of the remaining positional arguments.
+"""
+from __future__ import annotations
+
+import ast
+import contextlib
+import io
+import json
+import logging
+import os
+import shutil
+import tempfile
+
 META = {
-    "explanation": "restricted to the framework's argument-list helpers: LibcstResultTransformer.replace_args keeps every argument whose keyword is not named in the edit (identical, in place) and never drops one; _match_with_existing_arg returns a hit only for an entry naming the argument's keyword",
-    "out_of_reach": ["each hardening codemod's own on_result_found (that it passes the right NewArg list, import edits, aliases)",
-                     "add_arg_to_call / update_arg_target / update_call_target (libcst with_changes is opaque)",
-                     "HTTPSConnectionModifier.count_positional_args and the other per-codemod helpers"],
+    "explanation": "argument-list helpers are deductive; per-codemod edits are exercised on generated call shapes (bounded)",
+    "out_of_reach": ["the 16 hardening codemods whose detector is a semgrep rule (binary absent offline)", "import edits (libcst Add/RemoveImportsVisitor)"],
 }
+
+# (codemod id, import lines, callee, first argument, trailing keyword arguments of the trigger)
+TRIGGERS = [
+    ("pixee:python/subprocess-shell-false", "import subprocess\n", "subprocess.run", "cmd", ["shell=True"]),
+    ("pixee:python/subprocess-shell-false", "import subprocess\n", "subprocess.check_output", "cmd", ["shell=True", "text=True"]),
+    ("pixee:python/harden-pickle-load", "import pickle\n", "pickle.load", "fh", []),
+    ("pixee:python/https-connection", "import urllib3\n", "urllib3.HTTPConnectionPool", "host", ["maxsize=2"]),
+    ("pixee:python/use-defusedxml", "import xml.etree.ElementTree as ET\n", "ET.parse", "path", []),
+]
+NESTED = "wrap({0}, shell=True, verify=False, timeout=None)"
+SHAPES = [
+    "value = {callee}({nested}{kw})",
+    "value = {callee}({nested}, *more{kw}, **opts)",
+    "value = {callee}({nested}{kw}, extra={{**base, 'shell': True}})",
+    "value = other({callee}({nested}{kw}), wrap(1, shell=True), *more, **opts)",
+]
+
+
+def _parts(code):
+    """what a hardening codemod must leave alone: nested wrap(...) calls, star / double-star arguments, dict spreads"""
+    tree = ast.parse(code)
+    out = {"wrap": [], "star": 0, "dstar": 0, "dict-spread": 0}
+    for n in ast.walk(tree):
+        if isinstance(n, ast.Call):
+            if isinstance(n.func, ast.Name) and n.func.id == "wrap":
+                out["wrap"].append(ast.unparse(n))
+            out["star"] += sum(isinstance(a, ast.Starred) for a in n.args)
+            out["dstar"] += sum(k.arg is None for k in n.keywords)
+        elif isinstance(n, ast.Dict):
+            out["dict-spread"] += sum(k is None for k in n.keys)
+    out["wrap"].sort()
+    return out
+
+
+def run_shapes(tier="quick", seed=0):
+    from codemodder.codemodder import run
+    base = tempfile.mkdtemp(prefix="pyvc_c16_")
+    evals, bad, fired = 0, None, 0
+    cwd = os.getcwd()
+    try:
+        os.chdir(base)
+        for cid, imports, callee, arg0, kws in TRIGGERS:
+            for shape in SHAPES:
+                kw = "".join(", " + k for k in kws)
+                line = shape.format(callee=callee, nested=NESTED.format(arg0), kw=kw)
+                code = (imports + "\n\ndef wrap(x, **k):\n    return x\n\n\ndef other(*a, **k):\n    return a\n\n\n"
+                        "def use(cmd, fh, host, path, more, opts, base):\n    " + line + "\n    return value\n")
+                root = os.path.join(base, f"p{evals}")
+                os.makedirs(root)
+                open(os.path.join(root, "code.py"), "w").write(code)
+                rootlog = logging.getLogger()
+                for h in list(rootlog.handlers):
+                    rootlog.removeHandler(h)
+                with contextlib.redirect_stdout(io.StringIO()), contextlib.redirect_stderr(io.StringIO()):
+                    rc = run([root, "--output", os.path.join(base, "o.codetf"), "--codemod-include", cid])
+                after = open(os.path.join(root, "code.py")).read()
+                evals += 1
+                w = None
+                if rc != 0:
+                    w = {"clause": "the run completes", "status": rc}
+                else:
+                    try:
+                        pa, pb = _parts(code), _parts(after)
+                    except SyntaxError as e:
+                        pa, pb = None, None
+                        w = {"clause": "the rewritten file parses", "observed": str(e), "after": after}
+                    if pa is not None:
+                        fired += after != code
+                        if pa != pb:
+                            w = {"clause": "nested calls, star / double-star arguments and dict spreads of the rewritten call are preserved",
+                                 "before": pa, "after": pb, "rewritten line": next((l for l in after.splitlines() if "value =" in l), "")}
+                if w is not None and bad is None:
+                    bad = dict(w, codemod=cid, line=line)
+        # a SAST-driven hardening codemod (Sonar issues file): jwt-decode-verify on an options dict that spreads another dict
+        for k, opts_text in enumerate(['{**base, "verify_signature": False}', '{"verify_signature": False, **base}', '{"verify_signature": False}']):
+            src = ("import jwt\n\n\ndef wrap(x, **k):\n    return x\n\n\ndef read(token, key, base, more, opts):\n"
+                   "    return jwt.decode(wrap(token, verify=False), key, algorithms=[\"HS256\"], options=" + opts_text + ")\n")
+            root = os.path.join(base, f"jwt{k}")
+            os.makedirs(root)
+            open(os.path.join(root, "code.py"), "w").write(src)
+            ln = next(i for i, l in enumerate(src.splitlines(), 1) if "jwt.decode" in l)
+            text = src.splitlines()[ln - 1]
+            st = text.index('"verify_signature"')
+            issues = {"issues": [{"rule": "python:S5659", "status": "OPEN", "component": "code.py", "key": "K1",
+                                  "textRange": {"startLine": ln, "endLine": ln, "startOffset": st, "endOffset": st + len('"verify_signature": False')}}]}
+            ip = os.path.join(base, f"issues{k}.json")
+            json.dump(issues, open(ip, "w"))
+            rootlog = logging.getLogger()
+            for h in list(rootlog.handlers):
+                rootlog.removeHandler(h)
+            with contextlib.redirect_stdout(io.StringIO()), contextlib.redirect_stderr(io.StringIO()):
+                rc = run([root, "--output", os.path.join(base, "o.codetf"), "--codemod-include", "sonar:python/jwt-decode-verify", "--sonar-issues-json", ip])
+            after = open(os.path.join(root, "code.py")).read()
+            evals += 1
+            fired += after != src
+            if rc == 0 and after != src and bad is None:
+                try:
+                    pa, pb = _parts(src), _parts(after)
+                    if pa != pb:
+                        bad = {"clause": "nested calls, star / double-star arguments and dict spreads of the rewritten call are preserved", "before": pa, "after": pb,
+                               "codemod": "sonar:python/jwt-decode-verify", "line": text.strip(), "rewritten line": next((l.strip() for l in after.splitlines() if "jwt.decode" in l), "")}
+                except SyntaxError as e:
+                    bad = {"clause": "the rewritten file parses", "observed": str(e), "after": after, "codemod": "sonar:python/jwt-decode-verify"}
+    finally:
+        os.chdir(cwd)
+        shutil.rmtree(base, ignore_errors=True)
+    if bad is None and fired < evals // 2:
+        bad = {"clause": "vacuity guard: the codemods fire on the generated shapes", "fired": fired, "programs": evals}
+    return {"kind": "bounded", "id": "bounded:hardening codemods leave nested calls, star-args and spreads of the rewritten call alone", "status": "refuted" if bad else "discharged",
+            "bound": f"{len(TRIGGERS)} triggers (4 detector-less hardening codemods) x {len(SHAPES)} call shapes through the real CLI", "evaluations": evals,
+            "witness": bad, "func": "core_codemods (per-codemod on_result_found)",
+            "reason": "" if not bad else f"clause '{bad.get('clause')}' fails for {bad.get('codemod')}",
+            "replay": {"reproduced": True, "detail": json.dumps(bad, default=str)[:2000]} if bad else None,
+            "clause": "parts(before) == parts(after): nested wrap(...) calls textually identical, same number of *args / **kwargs / dict spreads"}
+
+
+def extra_checks(tier="quick", seed=0):
+    return [run_shapes(tier, seed)]
